@@ -8,6 +8,8 @@ CONSTANTS
  MaxFaults = 2
  MaxSeeks = 0
  Conc = 8
+ LinkEntries = FALSE
+ Directs = {"none"}
  StoreAnchor = TRUE
  RelNR = TRUE
  FixLeak = TRUE
